@@ -298,8 +298,9 @@ def law_mixed(ch):
             want = np.tensordot(dx, np.conj(dx), axes=(perm[:k], perm[:k]))
             rest = [a for a in range(nd) if a not in perm[:k]]
             ref = [dict(x.indices[a].chargemap) for a in rest] * 2
+            eps_x = max(float(np.finfo(dt).eps) for dt in dts)
             dense_equal(D.dense_of(r, ref=ref), want, "mixed:tensordot:value",
-                        exact=exact, K=64,
+                        exact=exact, K=64, eps=eps_x,
                         scale=float(np.abs(want).max() or 1)
                         if want.size else 1.0)
         except np.exceptions.ComplexWarning as w:
